@@ -270,3 +270,52 @@ Proof.
   { unfold rad. rewrite Nat2Z.inj_succ. unfold Z.succ. rewrite inject_Z_plus. change (inject_Z 1) with 1. ring. }
   rewrite E. field. exact H.
 Qed.
+
+(* ---- steady mode: what enters through one wall leaves through the other ------- *)
+Theorem steady_conserves c T0 T :
+  steady c = true -> rad_pos c -> tables_periodic c -> Eqs c T0 T ->
+  sum_jk c (fun j k => wall_in_inner c T j k + wall_in_outer c T j k) == 0.
+Proof.
+  intros Hs Hrad Htab HE.
+  pose (Fr := fun (j k i : nat) => g_r c i j k * (T (S i) j k - T i j k)).
+  pose (Gt := fun (i k j : nat) => g_t c i j k * (T i (S j) k - T i j k)).
+  pose (Hz := fun (i j k : nat) => g_z c i j k * (T i j (S k) - T i j k)).
+  assert (NW : forall i j k, In i (irange c) -> In j (jrange c) -> In k (krange c) ->
+            0 == 1 * ((Fr j k i - Fr j k (pred i))
+                 + (if has_t c then (Gt i k j - Gt i k (pred j)) / rad c i else 0)
+                 + (if has_z c then rad c i * (Hz i j k - Hz i j (pred k)) else 0))).
+  { intros i j k Hi Hj Hk. destruct HE as (Hn & _). specialize (Hn i j k Hi Hj Hk).
+    unfold res_node in Hn. rewrite Hs in Hn. pose proof (Hrad i Hi) as Hr.
+    assert (E : rad c i * Lap c T i j k == 0) by (assert (Lap c T i j k == 0) by lra; rewrite H; ring).
+    transitivity (rad c i * Lap c T i j k); [symmetry; exact E|]. unfold Lap, L_r, L_t, L_z, Fr, Gt, Hz.
+    assert (Hi1 : S (pred i) = i) by (unfold irange in Hi; apply in_seq in Hi; lia).
+    rewrite Hi1.
+    assert (Hj1 : has_t c = true -> S (pred j) = j).
+    { intros Ht. unfold jrange in Hj. rewrite Ht in Hj. apply in_seq in Hj. lia. }
+    assert (Hk1 : has_z c = true -> S (pred k) = k).
+    { intros Hz'. unfold krange in Hk. rewrite Hz' in Hk. apply in_seq in Hk. lia. }
+    destruct (has_t c), (has_z c); cbv beta iota;
+      try rewrite (Hj1 eq_refl); try rewrite (Hk1 eq_refl); field; lra. }
+  assert (Z : sum3 c (fun _ _ _ => 0) == 0).
+  { unfold sum3. apply sumL_zero_ext. intros i _. apply sumL_zero_ext. intros j _. apply sumL_zero. }
+  assert (S1 : sum3 c (fun _ _ _ => 0) ==
+               1 * (sum3 c (fun i j k => Fr j k i - Fr j k (pred i))
+                    + sum3 c (fun i j k => if has_t c then (Gt i k j - Gt i k (pred j)) / rad c i else 0)
+                    + sum3 c (fun i j k => if has_z c then rad c i * (Hz i j k - Hz i j (pred k)) else 0))).
+  { unfold sum3. apply sumL_lin3. intros i Hi. apply sumL_lin3. intros j Hj. apply sumL_lin3. intros k Hk.
+    apply (NW i j k Hi Hj Hk). }
+  rewrite Z in S1.
+  assert (R1 : sum3 c (fun i j k => Fr j k i - Fr j k (pred i)) ==
+               sum_jk c (fun j k => Fr j k (nr c) - Fr j k 0%nat)) by exact (radial_telescopes c T).
+  assert (R2 : sum3 c (fun i j k => if has_t c then (Gt i k j - Gt i k (pred j)) / rad c i else 0) == 0)
+    by exact (circ_telescopes c T0 T Hrad Htab HE).
+  assert (R3 : sum3 c (fun i j k => if has_z c then rad c i * (Hz i j k - Hz i j (pred k)) else 0) == 0)
+    by exact (axial_telescopes c T0 T HE).
+  rewrite R1, R2, R3 in S1.
+  unfold sum_jk in *. unfold wall_in_inner, wall_in_outer.
+  assert (E : sumL (fun j => sumL (fun k => g_r c 0 j k * (T 0%nat j k - T 1%nat j k)
+                                          + g_r c (nr c) j k * (T (S (nr c)) j k - T (nr c) j k)) (krange c)) (jrange c)
+              == sumL (fun j => sumL (fun k => Fr j k (nr c) - Fr j k 0%nat) (krange c)) (jrange c)).
+  { apply sumL_ext. intros j _. apply sumL_ext. intros k _. unfold Fr. ring. }
+  rewrite E. lra.
+Qed.
